@@ -304,33 +304,43 @@ def case_mass_roundtrip(log, order):
 
 
 def replay_mass_roundtrip(point, order, nfl):
-    """real evolve with a real Couplings object (MSBAR), reference on the mass-evolution wall, up and back down; the defect must vanish like a^order."""
+    """real evolve with a real Couplings object (MSBAR) built as msbar_masses.compute builds it (masses, ratios*xif2), reference ON the matching
+    scale k*m^2, up and back down.  The remainder m^2_out/m^2_in - 1 is fitted as c_{o-1} a^(o-1) + c_o a^o + c_{o+1} a^(o+1) over a scan of alpha_s
+    (least squares, a = a_s^(nf+1) at the matching scale); the coefficient below the implemented order must vanish."""
     import math
+    import numpy as np
     from eko import msbar_masses as mm
     from .C18 import _real_sc
 
     L = float(point.get("L", 0.6))
-    if abs(L) < 0.2 or abs(L) > 1.39:
-        L = 0.6
+    if abs(L) < 0.3 or abs(L) > 1.39:
+        L = 0.6 if L >= 0 else -0.6
     r = math.exp(L)
     ratios = [1.0, 1.0, 1.0]
     ratios[nfl - 3] = r
     masses2 = [2.0, 22.0, 30000.0]
     w = masses2[nfl - 3] * r
-    errs, As = [], []
-    for al in (0.12, 0.06, 0.03, 0.015):
-        sc = _real_sc(order, "exact", 5, masses2, [1.0, 1.0, 1.0], alphas=al, mu=91.0)
+    As, Rs = [], []
+    for al in (0.10, 0.08, 0.065, 0.05, 0.04, 0.03, 0.022, 0.016):
+        sc = _real_sc(order, "exact", 5, masses2, list(ratios), alphas=al, mu=91.0)
         up = mm.evolve(4.0, w, sc, ratios, 1.0, w, nf_ref=nfl, nf_to=nfl + 1)
         back = mm.evolve(up, w, sc, ratios, 1.0, w, nf_ref=nfl + 1, nf_to=nfl)
-        errs.append(abs(back / 4.0 - 1))
-        As.append(float(sc.a(w, nfl + 1)[0]))
-    pairs = [(a, e) for a, e in zip(As, errs) if e > 1e-15]
-    if len(pairs) < 2:
+        A = float(sc.a(w, nfl + 1)[0])
+        if not (0 < A < 0.03):
+            continue
+        As.append(A)
+        Rs.append(back / 4.0 - 1)
+    if len(As) < 5:
         return None
-    ex = math.log(pairs[-2][1] / pairs[-1][1]) / math.log(pairs[-2][0] / pairs[-1][0])
-    if ex < order - 0.5:
-        return {"detail": "mass evolved up and back down across the threshold %d|%d at mu^2 = %r m^2 (order %d): |m^2_out/m^2_in - 1| = %r at a_s = %r scales like a^%.2f < a^%d"
-                % (nfl, nfl + 1, r, order, errs, As, ex, order)}
+    As, Rs = np.array(As), np.array(Rs)
+    p = order - 1
+    M = np.stack([As**p, As ** (p + 1), As ** (p + 2)], axis=1)
+    # weight so that every point counts relative to its own size a^p
+    coef, *_ = np.linalg.lstsq(M / (As**p)[:, None], Rs / As**p, rcond=None)
+    # size of the coefficient a mismatch of the expansion parameter would produce: 2*|c20^mass|*(2/3)|L| at order 4; 10% of it is far above the fit noise
+    if abs(coef[0]) > 0.25 * abs(L):
+        return {"detail": "mass evolved up and back down across the threshold %d|%d at mu^2 = %r m^2 (order %d): remainder m^2_out/m^2_in - 1 fitted over a_s in [%.4f, %.4f] has "
+                "a^%d coefficient %r (required 0; a^%d, a^%d coefficients %r, %r)" % (nfl, nfl + 1, r, order, As.min(), As.max(), p, float(coef[0]), p + 1, p + 2, float(coef[1]), float(coef[2]))}
     return None
 
 
